@@ -67,6 +67,16 @@ SPECS = {
         search=False,
         explanation="calls of the 17 built-ins in every admitted instantiation pattern; all answers collected as instances of the argument tuple and compared as a multiset modulo variable renaming with the relation's tuples that unify with the arguments",
     ),
+    "C19": dict(
+        level="proof", props_deps=["Proofs/Stream.v"], model_deps=["Model/StreamCheck.v"],
+        trusted=COMMON_TRUSTED + ["hand-written Model/Stream.v: the stream as source bytes + cursor + past flag + eof_action; bufio.Reader, the source kinds and the buffer boundary are abstracted to the cursor, 'at' and 'not' are identified when nothing remains",
+                                  "read/1 is modelled by a small reader (layout, line and block comments, atoms of letters/digits, unsigned integers, end token); a source position outside it ends the comparison of that case",
+                                  "the output half (put_char/nl/write reach the sink in program order) is evaluated on the implementation only"],
+        assumptions=["sources are bytes 0..255; U+FFFD itself is not generated",
+                     "host-provided streams are installed as user_input (the only way the API offers); files are opened by open/4"],
+        search=False,
+        explanation="sources x operation sequences issued within one query and across queries, on strings.Reader / data-with-EOF reader / one-byte reader / files with each eof_action; every result and error compared with the cursor model; output sequences compared with the sink",
+    ),
     "C12": dict(
         level="proof", props_deps=["Proofs/Solutions.v"], model_deps=["Model/SolutionsCheck.v"],
         trusted=COMMON_TRUSTED + ["hand-written handshake model Model/Solutions.v under run-to-block semantics; Go channels, scheduler and memory model are not modelled"],
